@@ -642,6 +642,55 @@ class _PolarityNormaliser(ast.NodeTransformer):
             return test
         return None
 
+    def visit_Compare(self, n):
+        """`1 == x` -> `x == 1` (==, !=, is, is not with the constant on the
+        left): one side for the constant."""
+        self.generic_visit(n)
+        if len(n.ops) == 1 and isinstance(
+                n.ops[0], (ast.Eq, ast.NotEq, ast.Is, ast.IsNot)) and \
+                isinstance(n.left, ast.Constant) and not isinstance(
+                n.comparators[0], ast.Constant):
+            n.left, n.comparators = n.comparators[0], [n.left]
+        return n
+
+    def visit_BoolOp(self, n):
+        """`a <= x and x <= b` -> `a <= x <= b` (same plain name in the
+        middle); `not a or not b` -> `not (a and b)` and the dual."""
+        self.generic_visit(n)
+        if isinstance(n.op, ast.And):
+            vals, i = [], 0
+            while i < len(n.values):
+                a = n.values[i]
+                b = n.values[i + 1] if i + 1 < len(n.values) else None
+                order = (ast.Lt, ast.LtE, ast.Gt, ast.GtE)
+                if isinstance(a, ast.Compare) and isinstance(
+                        b, ast.Compare) and len(a.ops) == 1 and len(
+                        b.ops) == 1 and isinstance(
+                        a.ops[0], order) and isinstance(
+                        b.ops[0], order) and isinstance(
+                        a.comparators[0], ast.Name) and isinstance(
+                        b.left, ast.Name) and \
+                        a.comparators[0].id == b.left.id:
+                    vals.append(ast.copy_location(ast.Compare(
+                        left=a.left, ops=[a.ops[0], b.ops[0]],
+                        comparators=[a.comparators[0], b.comparators[0]]), a))
+                    i += 2
+                else:
+                    vals.append(a)
+                    i += 1
+            if len(vals) == 1:
+                return vals[0]
+            n.values = vals
+        if len(n.values) >= 2 and all(isinstance(v, ast.UnaryOp) and
+                                      isinstance(v.op, ast.Not)
+                                      for v in n.values):
+            inner = ast.BoolOp(
+                op=ast.And() if isinstance(n.op, ast.Or) else ast.Or(),
+                values=[v.operand for v in n.values])
+            return ast.copy_location(ast.UnaryOp(
+                op=ast.Not(), operand=ast.copy_location(inner, n)), n)
+        return n
+
     def visit_If(self, n):
         self.generic_visit(n)
         if n.orelse:
@@ -712,11 +761,17 @@ class _PolarityNormaliser(ast.NodeTransformer):
             if independent:
                 out = []
                 for t, v in zip(n.targets[0].elts, n.value.elts):
+                    if isinstance(v, ast.Name) and v.id == t.id:
+                        continue          # `x = x` does nothing
                     a = ast.Assign(targets=[t], value=v)
                     ast.copy_location(a, n)
                     a.end_lineno = getattr(n, 'end_lineno', n.lineno)
                     out.append(a)
-                return out
+                return out or ast.copy_location(ast.Pass(), n)
+        if len(n.targets) == 1 and isinstance(
+                n.targets[0], ast.Name) and isinstance(
+                n.value, ast.Name) and n.value.id == n.targets[0].id:
+            return ast.copy_location(ast.Pass(), n)
         return n
 
     def visit_Call(self, n):
